@@ -168,6 +168,9 @@ def drain_all(ctx):
         m += 1
         ok = len(push) == 1 and payload_of(push[0][4][2][1]) is not None and norm(payload_of(push[0][4][2][1])) == norm(pops[-1][4])
         ctx.ob("R08.6", "read|each-popped-pushed", ok, "each request popped after a successful read is pushed onto the vector read() returns", fn.loc(lf.bb))
+    from .util import caller_fns
+    pc = caller_fns(ctx.facts, conn.P + "pop_parsed_request")
+    ctx.ob("R08.6", "pop|callers", pc == {CC + "read"}, "pop_parsed_request is called from %s (only the draining read() may take requests off the queue: one taken anywhere else is never yielded)" % sorted(pc))
     ctx.ob("R08.6", "floor", n >= 1 and m >= 1, "%d returning path(s) and %d loop iteration path(s) after a successful try_read (floor 1 each)" % (n, m), fn.loc(0))
 
 
